@@ -4,6 +4,9 @@
 export GOFLAGS=-mod=mod GOPROXY=off GOSUMDB=off GOTOOLCHAIN=local
 cd "${VERIF_REPO:-/repo}" || exit 2
 pk="${*:-./...}"
+# the suite itself writes these files into the source tree; drop them when they were not there before
+art="pkg/bmanalysis/test.ipynb pkg/bmserialize/serialize.v pkg/bmstack/stack.v pkg/bmstack/stack_tb.v"
+trap 'for f in $art; do git ls-files --error-unmatch "$f" >/dev/null 2>&1 || rm -f "$f"; done' EXIT
 go test -mod=mod -json -vet=off -count=1 -timeout 25m $pk 2>&1 | python3 -c '
 import sys, json
 res={}
